@@ -18,7 +18,7 @@ BOUNDS = {
     "outside": "larger geometries; saturated cells (C16)",
 }
 EXPECT_LABELS = {"quick": ["bloom-union-is-or", "bloom-union-reports-every-key", "operands-unchanged", "cbf-union-is-single-stream",
-                           "cbf-union-est>=sum", "cms-join-is-single-stream", "cms-join-est>=sum", "cms-join-total"]}
+                           "cbf-union-est>=sum", "cms-join-is-single-stream", "cms-join-est>=sum", "cms-join-total", "cbf-union-keeps-strategy"]}
 FIXED = lambda key, depth=1: [3, 5, 7, 11, 13, 17, 19, 23, 29, 31][:depth]  # noqa: E731
 
 
